@@ -4,7 +4,7 @@ import ast
 
 from .. import AnalysisError
 from ..cfg import ALL_KINDS, NORMAL_KINDS, iter_own
-from ..lib import collections_from, comp_norm, inlined_expr, stmts_after, attr_stores, dominated_by, guard_forms, key_of, norm, render, type_is
+from ..lib import collections_from, comp_norm, inlined_expr, only_return, stmts_after, attr_stores, dominated_by, guard_forms, key_of, norm, render, type_is
 from ..report import describe, rule
 
 P = "C19"
@@ -385,3 +385,24 @@ def c19_9(ctx, r):
                 "directory - jobs launched afterwards run from there, relative paths in their commands no longer resolve and the recorded exit codes are not the jobs' own", "launched as the configured command")
     if n < 1:
         raise AnalysisError("C19.9", "no function changes the working directory any more (rule is moot: remove it)")
+
+
+@rule(P, "C19.10", "T9", "a stored result row comes back with the fields it was written with (name, return code, hpc job id)", min_obligations=8)
+def c19_10(ctx, r):
+    from .c13 import result_round_trip
+
+    result_round_trip(ctx, r, "C19.10")
+
+
+@rule(P, "C19.11", "X0", "the HPC job id recorded with a result is the allocation's own id (SLURM_JOB_ID)", min_obligations=1)
+def c19_11(ctx, r):
+    """`hpc_job_id = the HPC job id of the node that ran it`: under SLURM that is $SLURM_JOB_ID of the batch allocation.  Inside a task of a job
+    array SLURM also exports SLURM_ARRAY_JOB_ID - the id *shared* by all tasks of the array; preferring it makes every row of every such batch
+    carry the same foreign id.  (The meaning of the variables is SLURM's contract, taken as an assumption.)"""
+    fn = ctx.fn("SlurmManager.get_current_job_id", "C19.11")
+    rv = only_return(ctx, fn)
+    txt = ctx.src(rv).replace("'", '"').replace(" ", "") if rv is not None else ""
+    vars_ = sorted({c.value for c in ast.walk(rv) if isinstance(c, ast.Constant) and isinstance(c.value, str) and c.value.startswith("SLURM_")}) if rv is not None else []
+    r.check(vars_ == ["SLURM_JOB_ID"] and "os.environ" in txt, "get_current_job_id reads SLURM_JOB_ID and nothing else", key_of(fn, f"job id from {vars_}"), fn.loc(fn.node),
+            f"SlurmManager.get_current_job_id returns `{ctx.src(rv) if rv is not None else None}` (variables {vars_}): not $SLURM_JOB_ID alone - in an array task the shared array id is recorded instead of the "
+            "allocation's own id", "the HPC job id of the node that ran it")
